@@ -34,8 +34,9 @@ CODEDRIVER = os.path.join(LEAN, ".lake", "build", "bin", "codedriver")
 CLASS_OF = {"2": "Code2", "3": "Code3", "4": "Code4"}
 # which translated classes each property's theorems lean on
 NEEDS = {
-    "C01": ["3"], "C02": ["4"], "C03": ["2"],
-    "C06": ["2", "3", "4"], "C07": ["2", "3", "4"], "C09": ["2", "3", "4"], "C14": ["2", "3", "4"], "C15": ["2", "3"],
+    "C01": ["3"], "C02": ["4"], "C03": ["2"], "C04": ["2", "3", "4"], "C05": ["2", "3", "4"],
+    "C06": ["2", "3", "4"], "C07": ["2", "3", "4"], "C09": ["2", "3", "4"], "C10": ["2", "3", "4"], "C11": ["2", "3", "4"],
+    "C14": ["2", "3", "4"], "C15": ["2", "3"],
 }
 V4_KEYS = ["AV", "AC", "AT", "PR", "UI", "VC", "VI", "VA", "SC", "SI", "SA", "CR", "IR", "AR", "E", "MSI", "MSA", "MAV", "S", "U"]
 
@@ -113,6 +114,22 @@ def _real(ver, s):
     except Exception:  # noqa
         return "exc"
     try:
+        def js(sort, minimal):
+            try:
+                d = o.as_json(sort=sort, minimal=minimal)
+                out = []
+                for k, v in d.items():
+                    if isinstance(v, str):
+                        out.append('%s="%s"' % (k, v))
+                    elif v is None:
+                        out.append("%s=null" % k)
+                    else:
+                        from decimal import Decimal
+                        out.append("%s=%s" % (k, _frac(Decimal(repr(float(v))))))
+                return ",".join(out)
+            except Exception:  # noqa
+                return "EXC"
+
         def call(f, *a):
             try:
                 return f(*a)
@@ -122,14 +139,16 @@ def _real(ver, s):
         if ver == "2":
             return "ok\t%s %s %s\t%s\t%s\t%s\t%s" % (
                 _frac(o.base_score), _frac(o.temporal_score), _frac(o.environmental_score), call(o.clean_vector),
-                call(lambda: "|".join(o.severities())), call(o.temporal_vector), call(o.environmental_vector))
+                call(lambda: "|".join(o.severities())), call(o.temporal_vector), call(o.environmental_vector)) + "\t" + ";".join(
+                js(a, b) for a in (False, True) for b in (False, True))
         if ver == "3":
             return "ok\t%s %s %s\t%s\t%s" % (
                 _frac(o.base_score), _frac(o.temporal_score), _frac(o.environmental_score),
                 ",".join("%s:%s" % kv for kv in sorted(o.metrics.items())),
                 ",".join("%s:%s" % kv for kv in sorted(o.original_metrics.items()))) + "\t%s\t%s\t%s\t%s\t%s" % (
                 call(o.clean_vector), call(o.clean_vector, False), call(lambda: "|".join(o.severities())),
-                call(o.temporal_vector), call(o.environmental_vector))
+                call(o.temporal_vector), call(o.environmental_vector)) + "\t" + ";".join(
+                js(a, b) for a in (False, True) for b in (False, True))
         ms = []
         for k in V4_KEYS:
             try:
@@ -144,6 +163,60 @@ def _real(ver, s):
         return "ok\t%s\t%s\t%s\t%s" % (mv, " ".join(ms), call(o.clean_vector), call(o.clean_vector, False))
     except Exception as e:  # noqa  (attribute renamed, other types: not comparable)
         return "incomparable\t%s: %s" % (type(e).__name__, e)
+
+
+def _real_construct(ver, s):
+    """outcome of the real constructor on ANY string, in the format of the codedriver's K-operations"""
+    im = core.impl()
+    try:
+        o = im.cls[ver](s)
+    except Exception as e:  # noqa
+        n = type(e).__name__
+        if isinstance(e, im.CVSSError) and n.startswith("CVSS" + ver):
+            n = n[5:]
+        return "err\t" + n
+    try:
+        if ver == "2":
+            return "ok\t%s %s %s\t%s" % (_frac(o.base_score), _frac(o.temporal_score), _frac(o.environmental_score),
+                                         ",".join("%s:%s" % kv for kv in sorted(o.metrics.items())))
+        if ver == "3":
+            return "ok\t%s %s %s\t%s\t%s" % (_frac(o.base_score), _frac(o.temporal_score), _frac(o.environmental_score),
+                                             ",".join("%s:%s" % kv for kv in sorted(o.metrics.items())), o.minor_version)
+        return "ok\t%s\t%s" % (",".join("%s:%s" % kv for kv in sorted(o.metrics.items())),
+                               ",".join("%s:%s" % kv for kv in sorted(o.original_metrics.items())))
+    except Exception as e:  # noqa
+        return "incomparable\t%s: %s" % (type(e).__name__, e)
+
+
+def _canon_k(ver, line):
+    p = line.split("\t")
+    if p and p[0] == "ok":
+        idx = [2] if ver in ("2", "3") else [1, 2]
+        for i in idx:
+            if i < len(p) and p[i]:
+                p[i] = ",".join(sorted(p[i].split(",")))
+    return "\t".join(p)
+
+
+def _strings(ver, rng, n):
+    """valid vectors and near-valid strings (the C04 edit stream) for the whole-constructor comparison"""
+    out = []
+    for _ in range(n):
+        s = core.rand_vector(ver, rng)
+        out.append(s)
+        for _ in range(2):
+            try:
+                e = core.edit(s, rng, ver)
+            except Exception:  # noqa
+                continue
+            if isinstance(e, str):
+                out.append(e)
+    out += ["", "/", ":", "CVSS:3.1/", "CVSS:4.0/", "AV:N", "CVSS:3.0/AV:N/"]
+    try:
+        out += core.optional_only(ver, rng, 30)
+    except Exception:  # noqa
+        pass
+    return [s for s in out if isinstance(s, str) and core.sendable(s)]
 
 
 def _canon(ver, line):
@@ -206,7 +279,62 @@ def validate_translation(pid, tie, seed, scale=1):
                     diffs.append({"input": s, "translated_source": g[:300], "real_code": w[:300]})
             else:
                 n_ok += 1
-        r["validation"] = {"compared": len(items) - incomparable, "agree": n_ok, "incomparable": incomparable,
+        # the whole translated constructor (parse_vector, check_mandatory, ...) on valid and near-valid strings
+        n_k = 0
+        if "__init__" in r.get("translated", []) or (v == "4" and "parse_vector" in r.get("translated", [])):
+            strs = _strings(v, rng, 1500 * scale)
+            try:
+                gotk = _run_codedriver(["K%s\t%s" % (v, core.enc(s)) for s in strs])
+            except Exception as e:  # noqa
+                gotk, strs = [], []
+                r["validation_note"] = str(e)[:300]
+            kinds = {}
+            for s, g in zip(strs, gotk):
+                w = _real_construct(v, s)
+                if w.startswith("incomparable"):
+                    incomparable += 1
+                    continue
+                n_k += 1
+                kinds[w.split("\t")[1] if w.startswith("err") else "ok"] = kinds.get(w.split("\t")[1] if w.startswith("err") else "ok", 0) + 1
+                if _canon_k(v, g) != _canon_k(v, w):
+                    if len(diffs) < 5:
+                        diffs.append({"input": s, "translated_source": g[:300], "real_code": w[:300], "op": "construct"})
+                else:
+                    n_ok += 1
+            r["constructor_outcomes"] = kinds
+        if v == "4" and "as_json" in r.get("translated", []):
+            # compute_severity / as_json as translated, on the object the real code scored
+            im = core.impl()
+            reqs, wants = [], []
+            for s_ in items[: 1500 * scale]:
+                try:
+                    o = im.cls["4"](s_)
+                    from decimal import Decimal
+                    f = Fraction(Decimal(repr(float(o.base_score))))
+                    js = []
+                    for a in (False, True):
+                        for b in (False, True):
+                            d = o.as_json(sort=a, minimal=b)
+                            js.append(",".join(('%s="%s"' % (k, x)) if isinstance(x, str) else ("%s=null" % k) if x is None
+                                               else "%s=%s" % (k, _frac(Decimal(repr(float(x))))) for k, x in d.items()))
+                    wants.append("ok\t%s\t%s" % (o.severity, ";".join(js)))
+                    reqs.append("J4\t%s\t%d\t%d" % (core.enc(s_), f.numerator, f.denominator))
+                except Exception:  # noqa
+                    continue
+            try:
+                gotj = _run_codedriver(reqs) if reqs else []
+            except Exception as e:  # noqa
+                gotj, wants = [], []
+                r["validation_note"] = str(e)[:300]
+            for rq, g, w in zip(reqs, gotj, wants):
+                n_k += 1
+                if g != w:
+                    if len(diffs) < 5:
+                        diffs.append({"input": rq, "translated_source": g[:300], "real_code": w[:300], "op": "as_json"})
+                else:
+                    n_ok += 1
+        r["validation"] = {"compared": len(items) - incomparable + n_k, "agree": n_ok, "incomparable": incomparable,
+                           "constructor_strings": n_k, "constructor_outcomes": r.pop("constructor_outcomes", None),
                            "differences": diffs}
         if diffs and r["status"] == "kernel-checked":
             r["status"] = "unvalidated"
